@@ -1,6 +1,6 @@
 ---------------------------- MODULE LifecycleTrace ----------------------------
 (* Events recorded from real tabula.Extractor values:                           *)
-(*   {"event":"derive"|"pagecount"|"text"|"close","e":i,"bad":b,"res":r,"open":k} *)
+(*   {"event":"derive"|"pagecount"|"text"|"close","e":i,"kind":k,"pages":[..],"res":r,"open":k} *)
 (* plus {"event":"reset"} between histories.  An event is accepted iff the      *)
 (* specification's action for it yields the logged result class and the number  *)
 (* of open descriptors does not exceed the number the specification accounts for *)
@@ -10,15 +10,17 @@ VARIABLE l
 Ev == Trace[l]
 TraceInit == Init /\ l = 1
 TraceReset == /\ l <= Len(Trace) /\ Ev.event = "reset" /\ l' = l + 1
-              /\ ext' = << [reader |-> 0, owns |-> FALSE, opened |-> FALSE, bad |-> FALSE] >>
+              /\ ext' = << [reader |-> 0, owns |-> FALSE, opened |-> FALSE, arr |-> 1, len |-> 0] >>
+              /\ arrays' = <<EmptyArr>>
               /\ handles' = {} /\ nextH' = 1 /\ log' = <<>>
 Last == log'[Len(log')]
 TraceOp == /\ l <= Len(Trace) /\ Ev.event # "reset" /\ l' = l + 1 /\ Ev.e <= Len(ext)
-           /\ \/ (Ev.event = "derive" /\ Derive(Ev.e, Ev.bad))
+           /\ \/ (Ev.event = "derive" /\ Derive(Ev.e, Ev.kind))
               \/ (Ev.event = "pagecount" /\ NonTerminal(Ev.e))
               \/ (Ev.event = "text" /\ Terminal(Ev.e))
               \/ (Ev.event = "close" /\ Close(Ev.e))
            /\ Last.res = Ev.res /\ Ev.open <= Last.open
+           /\ (Ev.event = "text" /\ Ev.res = "ok") => Last.pages = Ev.pages
 TraceSpec == TraceInit /\ [][TraceReset \/ TraceOp]_<<vars, l>>
 TraceAccepted == TLCGet("stats").diameter - 1 = Len(Trace)
 ===============================================================================
